@@ -136,9 +136,26 @@ def run(ctx, rep):
            "the proxy's count is assigned instead of incremented: earlier counts are forgotten and the owner leaks",
            ctx.loc(sets[0]) if sets else fu.loc)
     finit = ctx.func("rpyc.core.netref.BaseNetref.__init__")
-    one = [n for n in A.walk(finit.node) if isinstance(n, ast.Assign) and any(
-        isinstance(t, ast.Attribute) and t.attr == "____refcount__" for t in n.targets)]
-    ok = len(one) == 1 and ctx.try_fold(one[0].value) == 1
+    # model evaluation of the constructor: whichever way the three slots are stored (plain attribute stores, or
+    # object.__setattr__ directly), the fresh proxy holds the connection, the id and a count of exactly 1
+    from .. import miniinterp as MIn
+    st_n = {}
+
+    def _osa(o_, name_, value_):
+        if o_ != "__SELF__":
+            raise AnalysisError("object.__setattr__ on something else than the proxy")
+        st_n[name_] = value_
+    try:
+        MIn.call_method(finit.node, st_n, ["CONN", ("mod.Cls", 7, 0)], {
+            "__calls__": {"object.__setattr__": _osa}, "__values__": {"object.__setattr__": _osa}, "__max_iter__": 50})
+        ok = st_n.get("____refcount__") == 1 and type(st_n.get("____refcount__")) is int and st_n.get("____conn__") == "CONN" and \
+            st_n.get("____id_pack__") == ("mod.Cls", 7, 0)
+    except MIn.Raised:
+        ok = False
+    except AnalysisError as e_:
+        rep.undecided("R10.2", "BaseNetref.__init__", str(e_))
+        ok = True
+    one = [finit.node]
     rep.ob("R10.2", "BaseNetref.__init__: a fresh proxy starts with count 1", ok,
            "self.____refcount__ = 1" if ok else "a fresh proxy does not start with count 1", finit.loc, kind="site")
     # the cached proxy is looked up and stored under one key
